@@ -190,6 +190,9 @@ def build(cfg, source, start=None, with_state=False):
             return (r() if callable(r) else r), mid
         if cfg.get("failagg"):
             return x.aggregate(failing_sum()), mid
+        if cfg.get("via_apply"):
+            # window.apply(func): func is handed the *whole* window (the Full aggregation) after every batch
+            return x.apply({"size": len, "sum": lambda s: s.sum(), "count": lambda s: s.count()}[agg]), mid
         return getattr(x, agg)(), mid
     if fam == "rolling":
         if start is None:
@@ -353,6 +356,10 @@ def configs(tier):
     for agg in ("cumsum", "cumprod", "cummin", "cummax"):
         add("cumulative", agg)
     add("cumulative", "cumsum", frame=True, col="w")
+    # window.apply(func) / full(): the function sees exactly the rows of the window
+    for agg in ("size", "sum", "count"):
+        add("window", agg, "rows", 2, via_apply=True); add("window", agg, "rows", 3, via_apply=True)
+        add("window", agg, "time", 2, via_apply=True)
     # a user-defined aggregation that raises on some batches (C16 on the dataframe accumulators)
     add("window", "sum", "rows", 2, failagg=True); add("window", "sum", "rows", 3, failagg=True)
     add("window", "sum", "time", 2, failagg=True); add("window", "sum", "expanding", 0, failagg=True)
@@ -429,7 +436,7 @@ def main():
         restartable = cfg["family"] in ("window", "wgroupby", "rolling", "ewm") or \
             (cfg["family"] == "reduce" and cfg["agg"] in ("sum", "count", "mean") and not cfg.get("frame")) or \
             (cfg["family"] == "groupby" and cfg["agg"] in ("sum", "count", "mean"))
-        if restartable:
+        if restartable and not cfg.get("via_apply"):
             for seq in batch_sequences(cfg, rng, max(per // 3, 6)):
                 if len(seq) >= 2:
                     cut = rng.randint(1, len(seq) - 1)
